@@ -249,9 +249,12 @@ def route(ctx: Any) -> List[Ob]:
 
     obs.extend(sighting_obligations(ctx, R))
     # every valid query reaches the query handler while anything is registered
-    from .c16 import dispatch_obligations
+    from .c16 import dispatch_obligations, duplicate_source_obligation
 
     obs.extend(dispatch_obligations(ctx, R, 'query'))
+    # ... whoever sent it: the duplicate guard in front of the dispatch does not take another querier's identical bytes for a
+    # duplicate (`a query from a source port other than 5353 gets a unicast reply to that address and port`)
+    obs.append(duplicate_source_obligation(ctx, R))
     return obs
 
 
